@@ -1,8 +1,19 @@
-"""C01: regenerate the integer arithmetic of sktime/forecasting/model_selection/_split.py."""
+"""C01: regenerate the integer arithmetic of sktime/forecasting/model_selection/_split.py.
+
+Normal form: only the ROOTS are looked up by name - the public API (`split`, `get_cutoffs`,
+`get_n_splits`, `temporal_train_test_split`, the splitter classes) and the dispatch protocol
+between them, whose method names are read off the call graph (the abstract `self.<m>(..)` that
+`BaseSplitter.split` iterates over, and the abstract `self.<m>(..)` the window splitter's
+implementation of it iterates over).  Every private helper (`_get_end`, `_check_window_lengths`,
+`_get_start`, `_check_fh`, `_check_y`, `_split_by_fh`, or whatever a maintainer extracts / inlines /
+renames) is translated by inlining at its call site (pyz), so the generated roots do not depend on
+where the helper boundaries are.  Locals are not looked up by name either: methods and attributes
+of the horizon / series / frame are dispatched on the TYPE of the receiver.
+"""
 import ast
 import os
 
-from .pyz import Unsupported, arange, const, identity_first, prim, translate_function
+from .pyz import Unsupported, _body, arange, const, find, identity_first, prim, translate_function
 
 SRC = "sktime/forecasting/model_selection/_split.py"
 
@@ -13,39 +24,54 @@ SELF_WINDOW = {
     "self.initial_window": ("iw", "O"), "self.start_with_window": ("sww", "B"),
 }
 
+
+def method(fmt, ty):
+    """A method without arguments of a typed receiver."""
+    def h(tr, e, env, recv):
+        if e.args or e.keywords:
+            raise Unsupported("arguments in " + ast.unparse(e))
+        return fmt % {"r": recv}, ty
+    return h
+
+
+def _isinstance(tr, e, env):
+    """isinstance(y, pd.Series) in `_check_y`: the argument is a series or its index, and the index
+    of either is what the splitter works on (only its length matters: attrs (Y, index))."""
+    if len(e.args) == 2 and not e.keywords and ast.unparse(e.args[1]) == "pd.Series":
+        t, ty = tr.expr(e.args[0], env)
+        tr.need(ty, "Y", e)
+        return "true", "B"
+    if len(e.args) == 2 and ast.unparse(e.args[1]) == "(np.ndarray, pd.Index)":
+        t, ty = tr.expr(e.args[0], env)
+        tr.need(ty, "L", e)
+        return "true", "B"
+    raise Unsupported("isinstance shape " + ast.unparse(e))
+
+
 CALLS = {
-    "fh.is_all_in_sample": const("(forallb (fun h => h <=? 0) fh)", "B"),
-    "fh.is_all_out_of_sample": const("(forallb (fun h => 0 <? h) fh)", "B"),
-    "fh.to_numpy": const("fh", "L"),
+    # the horizon (a sorted array of steps) and plain integer arrays, by receiver type
+    "<L>.is_all_in_sample": method("(forallb (fun h => h <=? 0) %(r)s)", "B"),
+    "<L>.is_all_out_of_sample": method("(forallb (fun h => 0 <? h) %(r)s)", "B"),
+    "<L>.to_numpy": method("%(r)s", "L"),
+    "<L>.to_pandas": method("%(r)s", "L"),
+    "<L>.max": method("(zmax_list %(r)s)", "Z"),
+    "<L>.min": method("(zmin_list %(r)s)", "Z"),
+    "<L>.to_indexer": method("(map (fun h_ => h_ - 1) %(r)s)", "L"),
     "np.arange": arange,
     "range": arange,
     "np.max": prim("(zmax_list %s)", ["L"], "Z"),
     "abs": prim("(Z.abs %s)", ["Z"], "Z"),
-    "len": prim("(Z.of_nat (length %s))", ["L"], "Z"),
     "np.array": lambda tr, e, env: _np_array(tr, e, env),
     "hasattr": const("true", "B"),
+    "isinstance": _isinstance,
+    # public validators: identity on valid input (C20 covers rejection)
     "check_step_length": identity_first,
     "check_window_length": identity_first,
     "check_cutoffs": identity_first,
-    "_check_fh": identity_first,
-    "_check_y": identity_first,
     "check_y": identity_first,
     "check_fh": identity_first,
-    "fh.to_pandas": const("fh", "L"),
-    "idx.max": const("(zmax_list fh)", "Z"),
-    "idx.min": const("(zmin_list fh)", "Z"),
-    "fh.to_indexer": const("(map (fun h_ => h_ - 1) fh)", "L"),
-    "_get_end": prim("(gen_get_end %s %s)", ["Y", "L"], "Z"),
-    "_check_window_lengths": prim("(gen_check_window_lengths %s %s %s %s)",
-                                  ["Y", "L", "Z", "O"], "RU"),
-    "self._get_start": prim("(gen_get_start wl step iw sww %s)", ["L"], "Z"),
-    "self._split_windows": prim("(split_windows %s %s %s %s %s)", ["Z", "Z", "Z", "Z", "L"], "LP"),
-    "self._split": prim("(inner_split %s)", ["Y"], "RLP"),
+    "check_time_index": identity_first,
 }
-
-
-def _loc(tr, e, env):
-    raise Unsupported("loc call")
 
 
 def _np_array(tr, e, env):
@@ -54,189 +80,6 @@ def _np_array(tr, e, env):
         tr.need(ty, "Z", e)
         return "[%s]" % t, "L"
     raise Unsupported("np.array shape")
-
-
-def _shape0(env):
-    env = dict(env)
-    env["y.shape[0]"] = ("n", "Z")
-    return env
-
-
-FUNCS = [
-    dict(path="_get_end", coq="gen_get_end", kind="fun", params=[Y, FH],
-         env={"y.shape[0]": ("n", "Z")}),
-    dict(path="_check_window_lengths", coq="gen_check_window_lengths", kind="proc",
-         params=[Y, FH, ("window_length", "wl", "Z"), ("initial_window", "iw", "O")],
-         env={"y.shape[0]": ("n", "Z")}),
-    dict(path="SlidingWindowSplitter._split_windows", coq="gen_sliding_windows", kind="gen",
-         params=[("start", "start", "Z"), ("end", "end_", "Z"), ("step_length", "step", "Z"),
-                 ("window_length", "wl", "Z"), FH]),
-    dict(path="ExpandingWindowSplitter._split_windows", coq="gen_expanding_windows", kind="gen",
-         params=[("start", "start", "Z"), ("end", "end_", "Z"), ("step_length", "step", "Z"),
-                 ("window_length", "wl", "Z"), FH]),
-    dict(path="BaseWindowSplitter._get_start", coq="gen_get_start", kind="fun",
-         params=[("@wl", "wl", "Z"), ("@step", "step", "Z"), ("@iw", "iw", "O"),
-                 ("@sww", "sww", "B"), FH],
-         env=SELF_WINDOW),
-    dict(path="BaseWindowSplitter._split", coq="gen_window_split", kind="rgen",
-         params=[("@split_windows", "split_windows", "SW"), ("@wl", "wl", "Z"),
-                 ("@step", "step", "Z"), ("@iw", "iw", "O"), ("@sww", "sww", "B"),
-                 ("@fh", "fh", "L"), Y],
-         env=dict(SELF_WINDOW, **{"y.shape[0]": ("n", "Z")}),
-         coqtypes={"split_windows": "Z -> Z -> Z -> Z -> list Z -> list (list Z * list Z)"}),
-    dict(path="BaseWindowSplitter.get_cutoffs", coq="gen_window_cutoffs", kind="rfun", ret="L",
-         params=[("@wl", "wl", "Z"), ("@step", "step", "Z"), ("@iw", "iw", "O"),
-                 ("@sww", "sww", "B"), ("@fh", "fh", "L"), Y],
-         env=SELF_WINDOW),
-    dict(path="CutoffSplitter._split", coq="gen_cutoff_split", kind="rgen",
-         params=[("@cutoffs", "cutoffs", "L"), ("@fh", "fh", "L"), ("@wl", "wl", "Z"), Y],
-         env={"self.cutoffs": ("cutoffs", "L"), "self.fh": ("fh", "L"),
-              "self.window_length": ("wl", "Z"), "y.shape[0]": ("n", "Z")}),
-    dict(path="CutoffSplitter.get_n_splits", coq="gen_cutoff_n_splits", kind="fun",
-         params=[("@cutoffs", "cutoffs", "L")], env={"self.cutoffs": ("cutoffs", "L")},
-         ignore=("y",)),
-    dict(path="CutoffSplitter.get_cutoffs", coq="gen_cutoff_cutoffs", kind="fun", ret="L",
-         params=[("@cutoffs", "cutoffs", "L")], env={"self.cutoffs": ("cutoffs", "L")},
-         ignore=("y",)),
-    dict(path="SingleWindowSplitter._split", coq="gen_single_split", kind="rgen",
-         params=[("@fh", "fh", "L"), ("@wlo", "wlo", "O"), Y],
-         env={"self.fh": ("fh", "L"), "self.window_length": ("wlo", "O")}),
-    dict(path="SingleWindowSplitter.get_cutoffs", coq="gen_single_cutoffs", kind="rfun", ret="L",
-         params=[("@fh", "fh", "L"), Y], env={"self.fh": ("fh", "L")}),
-    dict(path="BaseSplitter.split", coq="gen_split_filter", kind="rgen",
-         params=[("@inner_split", "inner_split", "IS"), Y],
-         coqtypes={"inner_split": "Z -> res (list (list Z * list Z))"}),
-    # temporal_train_test_split(y, fh=...) with X=None: labels of (y_train, y_test)
-    dict(path="_split_by_fh", coq="gen_split_by_fh", kind="rfun", ret="P",
-         params=[("@index", "index", "L"), ("@rel", "rel", "B"), ("y", "n", "Y"), FH,
-                 ("X", "x_absent", "ABSENT")],
-         env={"y.index": ("index", "L"), "fh.is_relative": ("rel", "B"), "y.loc": ("y_loc", "LOC")},
-         coqtypes={"x_absent": "unit"}),
-    dict(path="BaseWindowSplitter.get_n_splits", coq="gen_window_n_splits", kind="rfun",
-         params=[("@wl", "wl", "Z"), ("@step", "step", "Z"), ("@iw", "iw", "O"),
-                 ("@sww", "sww", "B"), ("@fh", "fh", "L"), Y],
-         env=SELF_WINDOW, calls_extra=True),
-]
-
-HEADER = """(* GENERATED by /verif/translator/split.py from %s -- do not edit, never committed *)
-From Coq Require Import ZArith List Bool.
-Require Import SkV.Lib.Base SkV.Lib.ZRange SkV.Lib.Slice.
-Import ListNotations.
-Open Scope Z_scope.
-
-"""
-
-
-def translate(repo):
-    with open(os.path.join(repo, SRC)) as f:
-        mod = ast.parse(f.read())
-    out = [HEADER % SRC]
-    calls = dict(CALLS)
-    # get_n_splits is `len(self.get_cutoffs(y))`: a raising call inside an expression
-    calls["self.get_cutoffs"] = prim("(gen_window_cutoffs wl step iw sww fh %s)", ["Y"], "RL")
-    calls["len"] = _len
-    for cfg in FUNCS:
-        out.append(translate_function(mod, cfg, calls))
-    return {"C01/Gen.v": "\n".join(out)}
-
-
-# ================================================================================================
-# Part 2 (Gen2.v): check_cutoffs as code (not as identity), the X slices of _split_by_fh, the
-# dispatch of temporal_train_test_split.  `translate` above is unchanged (C07 / C08 also call it);
-# C01 calls `translate_all`.
-
-HEADER2 = """(* GENERATED by /verif/translator/split.py from %s and
-   sktime/utils/validation/forecasting.py -- do not edit, never committed *)
-From Coq Require Import ZArith List Bool.
-Require Import SkV.Lib.Base SkV.Lib.ZRange SkV.Lib.Slice SkV.C01.Model2 SkV.C01.Gen.
-Import ListNotations.
-Open Scope Z_scope.
-
-"""
-
-
-def _isinstance_array(tr, e, env):
-    """isinstance(cutoffs, (np.ndarray, pd.Index)) on the modelled argument (an integer array)."""
-    if len(e.args) == 2 and ast.unparse(e.args[1]) == "(np.ndarray, pd.Index)":
-        t, ty = tr.expr(e.args[0], env)
-        tr.need(ty, "L", e)
-        return "true", "B"
-    raise Unsupported("isinstance shape " + ast.unparse(e))
-
-
-def _sk_split(tr, e, env):
-    """sklearn's train_test_split(*series, shuffle=False, ...): stays modelled (a parameter)."""
-    if ast.unparse(e) != ("_train_test_split(*series, shuffle=False, stratify=None, "
-                          "test_size=test_size, train_size=train_size)"):
-        raise Unsupported("call of sklearn's train_test_split: " + ast.unparse(e))
-    a, ta = tr.expr(ast.Name(id="test_size", ctx=ast.Load()), env)
-    b, tb = tr.expr(ast.Name(id="train_size", ctx=ast.Load()), env)
-    tr.need(ta, "O", e)
-    tr.need(tb, "O", e)
-    return "(sk_split n %s %s)" % (a, b), "RP"
-
-
-SPLIT_BY_FH_ENV = {"y.index": ("index", "L"), "fh.is_relative": ("rel", "B"), "y.loc": ("y_loc", "LOC")}
-FUNCS2_VAL = [
-    dict(path="check_cutoffs", coq="gen_check_cutoffs", kind="rfun", ret="L",
-         params=[("cutoffs", "cutoffs", "L")],
-         skip_asserts=("assert np.issubdtype(cutoffs.dtype, np.integer)",)),
-]
-FUNCS2 = [
-    dict(path="CutoffSplitter._split", coq="gen_cutoff_split_any", kind="rgen",
-         params=[("@cutoffs", "cutoffs", "L"), ("@fh", "fh", "L"), ("@wl", "wl", "Z"), Y],
-         env={"self.cutoffs": ("cutoffs", "L"), "self.fh": ("fh", "L"),
-              "self.window_length": ("wl", "Z"), "y.shape[0]": ("n", "Z")}),
-    dict(path="CutoffSplitter.get_cutoffs", coq="gen_cutoff_cutoffs_any", kind="rfun", ret="L",
-         params=[("@cutoffs", "cutoffs", "L")], env={"self.cutoffs": ("cutoffs", "L")},
-         ignore=("y",)),
-    dict(path="SingleWindowSplitter.get_n_splits", coq="gen_single_n_splits", kind="fun",
-         params=[], ignore=("y",)),
-    dict(path="_split_by_fh", coq="gen_split_by_fh_X", kind="rfun", ret="P4",
-         params=[("@index", "index", "L"), ("@rel", "rel", "B"), ("y", "n", "Y"), FH,
-                 ("X", "x_present", "PRESENT")],
-         env=dict(SPLIT_BY_FH_ENV, **{"X.loc": ("x_loc", "LOC")})),
-    dict(path="temporal_train_test_split", coq="gen_tts", kind="rfun", ret="P",
-         params=[("@sk_split", "sk_split", "SKSPLIT"), ("@index", "index", "L"),
-                 ("@rel", "rel", "B"), ("y", "n", "Y"), ("X", "x_absent", "ABSENT"),
-                 ("test_size", "test_size", "O"), ("train_size", "train_size", "O"),
-                 ("fh", "fh", "OL")],
-         skip_stmts=("series = (y,) if X is None else (y, X)",)),
-]
-
-
-def translate2(repo):
-    from . import pyzx_c20 as px
-    with open(os.path.join(repo, SRC)) as f:
-        mod = ast.parse(f.read())
-    with open(os.path.join(repo, "sktime/utils/validation/forecasting.py")) as f:
-        vmod = ast.parse(f.read())
-    calls = dict(CALLS)
-    calls["len"] = _len
-    calls["isinstance"] = _isinstance_array
-    calls["np.sort"] = prim("(csort %s)", ["L"], "L")
-    calls["check_equal_time_index"] = const("(Ok tt)", "RU")
-    calls["_train_test_split"] = _sk_split
-    del calls["check_cutoffs"]
-    gens = {
-        "check_cutoffs": dict(coq="gen_check_cutoffs", fn=px.find(vmod, "check_cutoffs"),
-                              params=[("cutoffs", "L")], ret="RL"),
-        "_split_by_fh": dict(coq="gen_split_by_fh", fn=px.find(mod, "_split_by_fh"),
-                             params=[("@index", "L"), ("@rel", "B"), ("y", "Y"), ("fh", "L"),
-                                     ("X", "ABSENT")], ret="RP"),
-    }
-    out = [HEADER2 % SRC]
-    for cfg in FUNCS2_VAL:
-        out.append(px.translate_function_x(vmod, cfg, calls, gens))
-    for cfg in FUNCS2:
-        out.append(px.translate_function_x(mod, cfg, calls, gens))
-    return {"C01/Gen2.v": "\n".join(out)}
-
-
-def translate_all(repo):
-    files = translate(repo)
-    files.update(translate2(repo))
-    return files
 
 
 def _len(tr, e, env):
@@ -248,6 +91,252 @@ def _len(tr, e, env):
     if ty == "RL":
         return "(rlen %s)" % t, "RZ"
     raise Unsupported("len of " + ty)
+
+
+# ---- the dispatch protocol, read off the call graph ------------------------------------------------
+
+
+def _classes(mod):
+    return {n.name: n for n in mod.body if isinstance(n, ast.ClassDef)}
+
+
+def _method(mod, cls, name):
+    classes = _classes(mod)
+    todo, seen = [cls], set()
+    while todo:
+        c = todo.pop(0)
+        if c in seen or c not in classes:
+            continue
+        seen.add(c)
+        for n in classes[c].body:
+            if isinstance(n, ast.FunctionDef) and n.name == name:
+                return n
+        todo += [ast.unparse(b) for b in classes[c].bases]
+    return None
+
+
+def _is_abstract(fn):
+    b = _body(fn)
+    return len(b) == 1 and isinstance(b[0], ast.Raise)
+
+
+def abstract_call(mod, cls, name):
+    """The one abstract `self.<m>(..)` the method `cls.name` calls: the hook subclasses implement."""
+    fn = _method(mod, cls, name)
+    if fn is None:
+        raise Unsupported("missing %s.%s" % (cls, name))
+    out = []
+    for c in ast.walk(fn):
+        if isinstance(c, ast.Call) and isinstance(c.func, ast.Attribute) \
+                and isinstance(c.func.value, ast.Name) and c.func.value.id == "self":
+            m = _method(mod, cls, c.func.attr)
+            if m is not None and _is_abstract(m) and c.func.attr not in out:
+                out.append(c.func.attr)
+    if len(out) != 1:
+        raise Unsupported("%s.%s: expected one abstract hook, found %s" % (cls, name, out))
+    return out[0]
+
+
+def positional(mod, path, spec):
+    """Parameters of a protocol method bound by POSITION (their names are private)."""
+    fn = find(mod, path)
+    names = [a.arg for a in fn.args.args if a.arg != "self"]
+    if len(names) != len(spec):
+        raise Unsupported("%s: %d parameters expected" % (path, len(spec)))
+    return [(n, coq, ty) for n, (coq, ty) in zip(names, spec)]
+
+
+HEADER = """(* GENERATED by /verif/translator/split.py from %s -- do not edit, never committed *)
+From Coq Require Import ZArith List Bool.
+Require Import SkV.Lib.Base SkV.Lib.ZRange SkV.Lib.Slice.
+Import ListNotations.
+Open Scope Z_scope.
+
+"""
+
+ATTRS_LENGTH_ONLY = {("Y", "index"): ("n", "Y")}      # the index of the series: again "the series"
+ATTRS_LABELS = {("Y", "index"): ("index", "L"), ("L", "is_relative"): ("rel", "B"),
+                ("Y", "loc"): ("y_loc", "LOC"), ("PRESENT", "loc"): ("x_loc", "LOC")}
+WINDOW_PARAMS = [("@wl", "wl", "Z"), ("@step", "step", "Z"), ("@iw", "iw", "O"),
+                 ("@sww", "sww", "B"), ("@fh", "fh", "L")]
+WINDOWS_SPEC = [("start", "Z"), ("end_", "Z"), ("step", "Z"), ("wl", "Z"), ("fh", "L")]
+TTS_FH_ONLY = {"test_size": ("tt", "ABSENT"), "train_size": ("tt", "ABSENT")}
+
+
+def roots(mod):
+    split_hook = abstract_call(mod, "BaseSplitter", "split")                    # `_split`
+    windows_hook = abstract_call(mod, "BaseWindowSplitter", split_hook)          # `_split_windows`
+    calls = dict(CALLS)
+    calls["len"] = _len
+    calls["self." + windows_hook] = prim("(split_windows %s %s %s %s %s)",
+                                         ["Z", "Z", "Z", "Z", "L"], "LP")
+    calls["self." + split_hook] = prim("(inner_split %s)", ["Y"], "RLP")
+    # get_n_splits is `len(self.get_cutoffs(y))`: a raising call inside an expression
+    calls["self.get_cutoffs"] = prim("(gen_window_cutoffs wl step iw sww fh %s)", ["Y"], "RL")
+    funcs = [
+        dict(path="SlidingWindowSplitter." + windows_hook, coq="gen_sliding_windows", kind="gen",
+             params=positional(mod, "SlidingWindowSplitter." + windows_hook, WINDOWS_SPEC)),
+        dict(path="ExpandingWindowSplitter." + windows_hook, coq="gen_expanding_windows", kind="gen",
+             params=positional(mod, "ExpandingWindowSplitter." + windows_hook, WINDOWS_SPEC)),
+        dict(path="BaseWindowSplitter." + split_hook, coq="gen_window_split", kind="rgen",
+             params=[("@split_windows", "split_windows", "SW")] + WINDOW_PARAMS
+             + positional(mod, "BaseWindowSplitter." + split_hook, [("n", "Y")]),
+             env=SELF_WINDOW,
+             coqtypes={"split_windows": "Z -> Z -> Z -> Z -> list Z -> list (list Z * list Z)"}),
+        dict(path="BaseWindowSplitter.get_cutoffs", coq="gen_window_cutoffs", kind="rfun", ret="L",
+             params=WINDOW_PARAMS + [Y], env=SELF_WINDOW, attrs=ATTRS_LENGTH_ONLY),
+        dict(path="CutoffSplitter." + split_hook, coq="gen_cutoff_split", kind="rgen",
+             params=[("@cutoffs", "cutoffs", "L"), ("@fh", "fh", "L"), ("@wl", "wl", "Z")]
+             + positional(mod, "CutoffSplitter." + split_hook, [("n", "Y")]),
+             env={"self.cutoffs": ("cutoffs", "L"), "self.fh": ("fh", "L"),
+                  "self.window_length": ("wl", "Z")}),
+        dict(path="CutoffSplitter.get_n_splits", coq="gen_cutoff_n_splits", kind="fun",
+             params=[("@cutoffs", "cutoffs", "L")], env={"self.cutoffs": ("cutoffs", "L")},
+             ignore=("y",)),
+        dict(path="CutoffSplitter.get_cutoffs", coq="gen_cutoff_cutoffs", kind="fun", ret="L",
+             params=[("@cutoffs", "cutoffs", "L")], env={"self.cutoffs": ("cutoffs", "L")},
+             ignore=("y",)),
+        dict(path="SingleWindowSplitter." + split_hook, coq="gen_single_split", kind="rgen",
+             params=[("@fh", "fh", "L"), ("@wlo", "wlo", "O")]
+             + positional(mod, "SingleWindowSplitter." + split_hook, [("n", "Y")]),
+             env={"self.fh": ("fh", "L"), "self.window_length": ("wlo", "O")}),
+        dict(path="SingleWindowSplitter.get_cutoffs", coq="gen_single_cutoffs", kind="rfun", ret="L",
+             params=[("@fh", "fh", "L"), Y], env={"self.fh": ("fh", "L")}),
+        dict(path="BaseSplitter.split", coq="gen_split_filter", kind="rgen",
+             params=[("@inner_split", "inner_split", "IS"), Y], attrs=ATTRS_LENGTH_ONLY,
+             coqtypes={"inner_split": "Z -> res (list (list Z * list Z))"}),
+        # temporal_train_test_split(y, fh=...) with X=None and no size arguments: labels of
+        # (y_train, y_test)
+        dict(path="temporal_train_test_split", coq="gen_split_by_fh", kind="rfun", ret="P",
+             params=[("@index", "index", "L"), ("@rel", "rel", "B"), ("y", "n", "Y"), FH,
+                     ("X", "x_absent", "ABSENT")],
+             env=TTS_FH_ONLY, attrs=ATTRS_LABELS, coqtypes={"x_absent": "unit"}),
+        dict(path="BaseWindowSplitter.get_n_splits", coq="gen_window_n_splits", kind="rfun",
+             params=WINDOW_PARAMS + [Y], env=SELF_WINDOW),
+    ]
+    return funcs, calls
+
+
+def translate(repo):
+    with open(os.path.join(repo, SRC)) as f:
+        mod = ast.parse(f.read())
+    out = [HEADER % SRC]
+    funcs, calls = roots(mod)
+    for cfg in funcs:
+        out.append(translate_function(mod, dict(cfg, repo=repo), calls))
+    return {"C01/Gen.v": "\n".join(out)}
+
+
+# ================================================================================================
+# Part 2 (Gen2.v): check_cutoffs as code (not as identity), the X slices of the horizon split, the
+# dispatch of temporal_train_test_split.  C07 / C08 call `translate`; C01 calls `translate_all`.
+
+HEADER2 = """(* GENERATED by /verif/translator/split.py from %s and
+   sktime/utils/validation/forecasting.py -- do not edit, never committed *)
+From Coq Require Import ZArith List Bool.
+Require Import SkV.Lib.Base SkV.Lib.ZRange SkV.Lib.Slice SkV.C01.Model2 SkV.C01.Gen.
+Import ListNotations.
+Open Scope Z_scope.
+
+"""
+
+
+def _sk_split(tr, e, env):
+    """sklearn's train_test_split(*series, shuffle=False, stratify=None, test_size=.., train_size=..)
+    on (y,) / (y, X): stays modelled (a parameter of the regenerated function)."""
+    if len(e.args) != 1 or not isinstance(e.args[0], ast.Starred) or not _is_y_and_X(e.args[0].value, env):
+        raise Unsupported("call of sklearn's train_test_split: " + ast.unparse(e))
+    kw = {k.arg: k.value for k in e.keywords}
+    if set(kw) != {"shuffle", "stratify", "test_size", "train_size"} \
+            or ast.unparse(kw["shuffle"]) != "False" or ast.unparse(kw["stratify"]) != "None":
+        raise Unsupported("call of sklearn's train_test_split: " + ast.unparse(e))
+    a, ta = tr.expr(kw["test_size"], env)
+    b, tb = tr.expr(kw["train_size"], env)
+    tr.need(ta, "O", e)
+    tr.need(tb, "O", e)
+    return "(sk_split n %s %s)" % (a, b), "RP"
+
+
+def _is_y_and_X(node, env, depth=0):
+    """Is the starred argument the series that are given: (y,) if X is None, (y, X) otherwise?"""
+    def names(t):
+        return [x.id for x in t.elts] if isinstance(t, ast.Tuple) and all(
+            isinstance(x, ast.Name) for x in t.elts) else None
+
+    def role(n):
+        return {"Y": "y", "ABSENT": "X", "PRESENT": "X"}.get(env.get(n, (None, None))[1])
+    if isinstance(node, ast.Name) and node.id in env and env[node.id][1] == "UNBOUND" \
+            and isinstance(env[node.id][0], ast.AST) and depth < 3:
+        return _is_y_and_X(env[node.id][0], env, depth + 1)
+    if isinstance(node, ast.IfExp) and isinstance(node.test, ast.Compare) and len(node.test.ops) == 1 \
+            and isinstance(node.test.left, ast.Name) and role(node.test.left.id) == "X" \
+            and isinstance(node.test.comparators[0], ast.Constant) \
+            and node.test.comparators[0].value is None:
+        none_branch, some_branch = node.body, node.orelse
+        if isinstance(node.test.ops[0], ast.IsNot):
+            none_branch, some_branch = some_branch, none_branch
+        a, b = names(none_branch), names(some_branch)
+        return a is not None and b is not None and [role(x) for x in a] == ["y"] \
+            and [role(x) for x in b] == ["y", "X"]
+    return False
+
+
+def translate2(repo):
+    from . import pyzx_c20 as px
+    with open(os.path.join(repo, SRC)) as f:
+        mod = ast.parse(f.read())
+    with open(os.path.join(repo, "sktime/utils/validation/forecasting.py")) as f:
+        vmod = ast.parse(f.read())
+    _, calls = roots(mod)
+    split_hook = abstract_call(mod, "BaseSplitter", "split")
+    calls["np.sort"] = prim("(csort %s)", ["L"], "L")
+    calls["check_equal_time_index"] = const("(Ok tt)", "RU")
+    calls["_train_test_split"] = _sk_split
+    del calls["check_cutoffs"]
+    gens = {
+        "check_cutoffs": dict(coq="gen_check_cutoffs", fn=px.find(vmod, "check_cutoffs"),
+                              params=[("cutoffs", "L")], ret="RL"),
+    }
+    funcs_val = [
+        dict(path="check_cutoffs", coq="gen_check_cutoffs", kind="rfun", ret="L",
+             params=[("cutoffs", "cutoffs", "L")],
+             skip_asserts=("assert np.issubdtype(cutoffs.dtype, np.integer)",)),
+    ]
+    funcs = [
+        dict(path="CutoffSplitter." + split_hook, coq="gen_cutoff_split_any", kind="rgen",
+             params=[("@cutoffs", "cutoffs", "L"), ("@fh", "fh", "L"), ("@wl", "wl", "Z")]
+             + positional(mod, "CutoffSplitter." + split_hook, [("n", "Y")]),
+             env={"self.cutoffs": ("cutoffs", "L"), "self.fh": ("fh", "L"),
+                  "self.window_length": ("wl", "Z")}),
+        dict(path="CutoffSplitter.get_cutoffs", coq="gen_cutoff_cutoffs_any", kind="rfun", ret="L",
+             params=[("@cutoffs", "cutoffs", "L")], env={"self.cutoffs": ("cutoffs", "L")},
+             ignore=("y",)),
+        dict(path="SingleWindowSplitter.get_n_splits", coq="gen_single_n_splits", kind="fun",
+             params=[], ignore=("y",)),
+        # the horizon split with exogenous data: four label sets
+        dict(path="temporal_train_test_split", coq="gen_split_by_fh_X", kind="rfun", ret="P4",
+             params=[("@index", "index", "L"), ("@rel", "rel", "B"), ("y", "n", "Y"), FH,
+                     ("X", "x_present", "PRESENT")],
+             env=TTS_FH_ONLY, attrs=ATTRS_LABELS),
+        dict(path="temporal_train_test_split", coq="gen_tts", kind="rfun", ret="P",
+             params=[("@sk_split", "sk_split", "SKSPLIT"), ("@index", "index", "L"),
+                     ("@rel", "rel", "B"), ("y", "n", "Y"), ("X", "x_absent", "ABSENT"),
+                     ("test_size", "test_size", "O"), ("train_size", "train_size", "O"),
+                     ("fh", "fh", "OL")],
+             attrs=ATTRS_LABELS),
+    ]
+    out = [HEADER2 % SRC]
+    for cfg in funcs_val:
+        out.append(px.translate_function_x(vmod, dict(cfg, repo=repo), calls, gens))
+    for cfg in funcs:
+        out.append(px.translate_function_x(mod, dict(cfg, repo=repo), calls, gens))
+    return {"C01/Gen2.v": "\n".join(out)}
+
+
+def translate_all(repo):
+    files = translate(repo)
+    files.update(translate2(repo))
+    return files
 
 
 if __name__ == "__main__":
